@@ -28,4 +28,6 @@ def run(ctx: Ctx):
                                "matrix-domain": "R-C02-4", "matrix-alloc": "R-C02-4", "matrix-cover": "R-C02-4",
                                "source": "R-C02-5", "sizes-with-null": "R-C02-5", "append": "R-C02-6", "final-return": "R-C02-6"})
     nbk.check_odometer(ctx, "R-C02-5")
+    # the minimum is taken over what the constraint matrix lets the solver choose: column j of A must be candidate j's own units
+    nbk.check_build_A(ctx, {"A-shape": "R-C02-6", "A-offset": "R-C02-6", "A-cell": "R-C02-6", "A-null": "R-C02-6"})
     ilp.check_decoding(ctx, F, {"same-ids": "R-C02-6", "ua-disorder": "R-C02-6", "cached": "R-C02-6"}, "Alignment")
